@@ -139,7 +139,7 @@ def rule_all(ctx, M, u):
               site=cb.span if cb else u.body.span)
     if not rets:
         ctx.fail("C07.ALL", u.where, "no Ready(Err) return", site=u.body.span)
-    swaps = [s for s in bi.sites if s.key == ("core::mem::swap", "swap") and scan.self_field("errors") in (s.arg(0), s.arg(1))]
+    swaps = flow.takes_of(bi, scan.self_field("errors"))
     for b, kind, payload, t in rets:
         probs = []
         if not guard or not bi.guarded_by(b, guard):
@@ -150,7 +150,7 @@ def rule_all(ctx, M, u):
             if inner[0] == "call" and inner[1][1] == "array_assume_init" and inner[2]:
                 src = inner[2][0]
                 if len(swaps) == 1:
-                    other = swaps[0].arg(1) if swaps[0].arg(0) == scan.self_field("errors") else swaps[0].arg(0)
+                    other = swaps[0].taken
                     good = other == src and bi.body.blocks_dominate([swaps[0].block], b) and bi.guarded_by(swaps[0].block, guard)
         if not good:
             probs.append("aggregate payload is not AggregateError::new(array_assume_init(<array swapped out of self.errors once>))")
